@@ -188,7 +188,9 @@ func (g *Group) TakeMsg(ctx context.Context, addr net.IP, sourceDomain string) e
 	if g.source != nil {
 		if err := g.source.TakeContext(ctx, sourceDomain); err != nil {
 			g.global.Release()
-			g.ip.Release(addr.String())
+			if g.ip != nil {
+				g.ip.Release(addr.String())
+			}
 			return err
 		}
 	}
